@@ -315,20 +315,26 @@ def wl_set(ctx, R, rng, tz):
         opts['tzids'] = rng.choice([{'Custom/Zone': zone}, lambda name, z=zone: z])
         variant.append('tzid')
     else:
-        lines.append('DTSTART:' + fmt4(st))
-    for k in rr:
-        lines.append('RRULE:' + render_rrule_value(rng, k, utc_until=False))
-    for k in ex:
-        lines.append('EXRULE:' + render_rrule_value(rng, k, utc_until=False))
+        # ignoretz: every value carries a Z that must be dropped everywhere (DTSTART, UNTIL of RRULE and EXRULE, RDATE, EXDATE)
+        zs = 'Z' if rng.random() < .3 else ''
+        if zs:
+            opts['ignoretz'] = True
+            variant.append('ignoretz')
+        lines.append('DTSTART:' + fmt4(st) + zs)
+    if not aware:
+        for k in rr:
+            lines.append('RRULE:' + render_rrule_value(rng, k, utc_until=bool(zs)))
+        for k in ex:
+            lines.append('EXRULE:' + render_rrule_value(rng, k, utc_until=bool(zs)))
     if rd and not aware:
-        lines.append(rng.choice(['RDATE:', 'RDATE;VALUE=DATE-TIME:']) + ','.join(fmt4(d) for d in rd))
+        lines.append(rng.choice(['RDATE:', 'RDATE;VALUE=DATE-TIME:']) + ','.join(fmt4(d) + zs for d in rd))
     else:
         rd = []
     if exd:
         if aware:
             lines.append('EXDATE;TZID=Custom/Zone:' + ','.join(fmt4(d) for d in exd))
         else:
-            lines.append(rng.choice(['EXDATE:', 'EXDATE;VALUE=DATE-TIME:']) + ','.join(fmt4(d) for d in exd))
+            lines.append(rng.choice(['EXDATE:', 'EXDATE;VALUE=DATE-TIME:']) + ','.join(fmt4(d) + zs for d in exd))
     if aware:
         for k in rr + ex:
             if 'until' in k:
